@@ -55,7 +55,7 @@ def report(pid, tier, seed, t0, res):
     kf = known_findings(); known = [k for k in kf.get('findings', []) if k.get('property') == pid]
     for lem, err in res['failures'][:8]:
         cx, errs = (None, [])
-        try: cx, errs = search_counterexample(idx, lem, seed)
+        try: cx, errs = (None, ['no search for implication-shaped / IEEE-enumeration statements']) if (getattr(lem, 'raw_stmt', False) or getattr(lem, 'mode', None) == 'ieee') else search_counterexample(idx, lem, seed)
         except Exception as e: errs = ['search failed: %r' % e]
         obj = {'kind': 'counterexample' if cx else 'unproved', 'theorem': lem.name, 'statement': lem.statement()[:2000], 'meta': lem.meta, 'coq_error': err[-600:], 'how_found': 'lemma failed; both sides evaluated with the IEEE/Z instance under vm_compute on %s candidate inputs' % ('600'), 'search_errors': errs[:2]}
         if cx:
